@@ -287,3 +287,23 @@ Example wf_plan_example :
                   [mkFitem KData (SReg 493 1 (s2l "dg")) (s2l "a") [[]; s2l "etc"; s2l "a"] (Some 420) [] (Some (s2l "doc")) false]
                   [mkLitem (s2l "a") [s2l "share"; s2l "l"] [s2l "share"] [] None]) = true.
 Proof. vm_compute. reflexivity. Qed.
+
+(* ------------------------------------------------------------------ histories of installations *)
+(* any number of `meson install` runs with any options (reinstall, --only-changed, --tags,
+   --skip-subprojects, --dry-run; successful or failing), all into the same DESTDIR *)
+Fixpoint run_installs (pl : plan) (os : list opts) (f : fs) : fs :=
+  match os with
+  | [] => f
+  | o :: r => let '(f', _, _) := do_install o pl f in run_installs pl r f'
+  end.
+
+Theorem installs_contained_partial : forall pl os D f,
+  (forall o, In o os -> wf_plan o pl = true /\ cleanp (effective_destdir o pl) = D) ->
+  forall q, ~ is_prefix D q -> ~ is_prefix q D -> lookup (run_installs pl os f) q = lookup f q.
+Proof.
+  intros pl os D. induction os as [|o r IH]; intros f Hos q N1 N2; simpl; [reflexivity|].
+  destruct (do_install o pl f) as [[f' lg] res] eqn:E.
+  destruct (Hos o (or_introl eq_refl)) as [Hwf HD].
+  rewrite IH; [|intros o' Ho'; apply Hos; right; exact Ho' | exact N1 | exact N2].
+  destruct (containment_partial o pl f f' lg res Hwf E q) as [X|[X|[_ [_ X]]]]; [exact X | rewrite HD in X; contradiction | rewrite HD in X; contradiction].
+Qed.
